@@ -35,22 +35,26 @@
       larger fuel works.  The former numeric bound (2*root+2) and its counterexample
       [fuel_root_lt_insufficient] are gone with the fuel discipline.
       WHAT [opt_ok] ASSUMES vs WHAT IS PROVED (end of file, over [R_ops uf bf], the instance of
-      Tree/OptimizeSem.v):
+      Tree/OptimizeSem.v).  [opt_ok] is now a THEOREM for sources with oracles anywhere:
       [opt_ok_src], [tower_ok_src], [evaluator_oracle_free]
-                                    oracle-free source trees ([src_ok] + [noT]): [opt_ok] is a
-                                    theorem and the evaluator (fuel >= 1) is the denotation
-                                    (this is C01's eval_denotes).
-      [optimized_sem_noremap]       roots without lazy nodes: value preserved with any oracles
-                                    below (flatten is the identity; [opt_tree_sem] has no shape
-                                    restriction).
-      [opt_ok_of_pure]              with oracles, for a root satisfying [noT] or without lazy
-                                    nodes, all of [opt_ok] follows from OptimizeSem.v EXCEPT the
-                                    last conjunct (the optimised root reaches only [opure_at]
-                                    nodes): OptimizePure.v proves it for oracle-free sources
-                                    only ([src_ok] excludes oracles).  For coordinate trees that
-                                    still hold lazy remaps above an arena containing [NOracleT]
-                                    nodes, value preservation is assumed too ([flatten_sem]
-                                    needs [noT] on ALL ids below the root).
+                                    oracle-free source trees ([src_ok] + [noT]); the evaluator
+                                    (fuel >= 1) is the denotation (C01's eval_denotes).
+      [optimized_sem_good], [opt_ok_of_pure]
+                                    value preservation for any tree satisfying [good]
+                                    (FlattenSem.v; implied by [noT]), given purity.
+      [optimized_o_full], [opt_ok_of_src_o]
+                                    [src_ok_o vb a root] (OptimizePureO.v: user oracles,
+                                    transformed oracles over a user oracle, lazy remaps anywhere,
+                                    applies / variables when vb) + [good]  ==>  [opt_ok a root],
+                                    the output is hereditarily free of lazy nodes ([hp true vb]) and
+                                    the out-of-fuel flag of the optimiser model is false.
+      [hp_xyz_only], [tower_ok_of_src_o], [evaluator_correct_syntactic]
+                                    variable-free sources ([src_ok_o false]): the whole tower
+                                    [tower_ok (2 * bnd_of a root + 1) a root] from syntactic
+                                    conditions on the source only, hence
+                                    evaluator = denotation with no hypothesis about
+                                    Tree::optimized.  [nested_R_evaluator]: non-vacuity (a
+                                    transformed oracle lazily remapped again).
       [tower_ok_pure], [opt_ok_intro], [tower_ok_S_eq], [reach_closed]
                                     tools to establish [tower_ok] on concrete arenas.
    c. [ex_arena w], [ex_opt w]      oracle.remap(min(x, node w), y, z) built lazily, and what
@@ -766,7 +770,8 @@ Qed.
 (* ================================================================== *)
 (* b (continued): what the existing optimiser theorems give for [opt_ok], over the real
    instance [R_ops uf bf] for which Tree/OptimizeSem.v is proved                          *)
-From LF Require Base.RInst Tree.FlattenSem Tree.OptimizeSem Tree.OptimizePure.
+From LF Require Base.RInst Tree.FlattenSem Tree.OptimizeSem Tree.OptimizePure Tree.OptimizePureO
+  Tree.ReachShape Tree.Bnd.
 Local Open Scope nat_scope.
 
 Section OptOkR.
@@ -818,44 +823,202 @@ Section OptOkR.
     apply tower_ok_src; assumption.
   Qed.
 
-  (* a root without lazy nodes: flatten is the identity and the optimiser theorem needs no
-     shape restriction, so the value is preserved whatever oracles the arena holds *)
-  Lemma optimized_sem_noremap (a : arena R) i :
-    arena_wf a -> base_ok O a -> i < length a -> f_remap (flags_of a i) = false ->
+  (* value preservation whatever oracles the tree holds, transformed ones with lazy
+     coordinate trees included: [good] (FlattenSem.v) only asks that transformed oracles
+     BELOW AN APPLY NODE have variable-independent components; it follows from [noT] and
+     holds trivially when no apply node is reachable *)
+  Lemma optimized_sem_good (a : arena R) i :
+    arena_wf a -> base_ok O a -> i < length a -> FlattenSem.good O osem a i ->
     let '(a', j) := optimized O a i in
     extends a a' /\ arena_wf a' /\ j < length a' /\
     forall r, val O osem a' j r = val O osem a i r.
   Proof.
-    intros Hwf Hb Hi Hfl. unfold optimized, optimized_helper, flatten. rewrite Hfl.
-    assert (Hst : OptimizeSem.st_ok uf bf osem {| st_arena := a; st_canon := [] |}).
-    { apply OptimizeSem.st_ok_init; [exact Hwf | exact Hb | apply Forall_nil]. }
-    pose proof (OptimizeSem.opt_tree_sem uf bf pow_1 root_1 osem (opt_fuel i)
-                  {| st_arena := a; st_canon := [] |} i Hst Hi I
-                  ltac:(unfold OptimizeSem.fuel_enough, opt_fuel; lia)) as H.
-    destruct (opt_tree O (opt_fuel i) {| st_arena := a; st_canon := [] |} i) as [st' j].
-    cbn [st_arena] in H. destruct H as (Hst' & He & Hj & Hv).
-    split; [exact He|]. split; [apply Hst'|]. split; [exact Hj | exact Hv].
+    intros Hwf Hb Hi Hg.
+    pose proof (OptimizeSem.optimized_sem_o uf bf pow_1 root_1 osem a i Hwf Hb Hi Hg) as H.
+    destruct (optimized O a i) as [a' j]. destruct H as (H1 & H2 & _ & H3 & H4). auto.
   Qed.
 
   (* with oracles: everything in [opt_ok] but the purity of the output follows from
-     OptimizeSem.v, for roots without already-transformed oracles below ([noT], the
-     hypothesis of [flatten_sem]) or without lazy nodes *)
+     OptimizeSem.v, for roots satisfying [good] (in particular [noT]) *)
   Theorem opt_ok_of_pure (a : arena R) i :
     arena_wf a -> base_ok O a -> i < length a ->
-    (FlattenSem.noT a i \/ f_remap (flags_of a i) = false) ->
+    (FlattenSem.noT a i \/ FlattenSem.good O osem a i) ->
     (let '(a1, r1) := optimized O a i in forall m, DeckSemReach.reach a1 r1 m -> opure_at a1 m) ->
     opt_ok O osem a i.
   Proof.
     intros Hwf Hb Hi Hcase Hp.
-    assert (Hv : let '(a', j) := optimized O a i in
-                 extends a a' /\ arena_wf a' /\ j < length a' /\
-                 forall r, val O osem a' j r = val O osem a i r).
-    { destruct Hcase as [HnoT|Hfl].
-      - apply (OptimizeSem.optimized_sem_noT uf bf pow_1 root_1 osem a i Hwf Hb Hi HnoT).
-      - apply optimized_sem_noremap; assumption. }
+    assert (Hg : FlattenSem.good O osem a i)
+      by (destruct Hcase as [HnoT|Hg]; [apply FlattenSem.good_noT; assumption | exact Hg]).
+    pose proof (optimized_sem_good a i Hwf Hb Hi Hg) as Hv.
     unfold opt_ok. destruct (optimized O a i) as [a' j].
     destruct Hv as (He & Hwf' & Hj & Hval).
     split; [exact Hwf'|]. split; [exact (base_ok_extends O a a' Hb He)|].
     split; [exact Hj|]. split; [exact Hval | exact Hp].
+  Qed.
+
+  (* ---------------------------------------------------------------- *)
+  (* [opt_ok] DISCHARGED for sources with oracles anywhere *)
+  Lemma reach_greach_kids (a : arena R) root m :
+    DeckSemReach.reach a root m -> ReachShape.greach kids a root m.
+  Proof. induction 1; [constructor | econstructor; eauto]. Qed.
+
+  Lemma hp_opure vb (a : arena R) j : OptimizePure.hp true vb a j ->
+    forall m, DeckSemReach.reach a j m -> opure_at a m.
+  Proof.
+    intros Hp m Hm. pose proof (OptimizePureO.hp_kp vb a j Hp m (reach_greach_kids a j m Hm)) as Hs.
+    unfold opure_at. destruct (getn a m) as [c|op|op x|op x y|g|cx cy cz u|x y z t|v e t|];
+      cbn [OptimizePure.oshape] in Hs; try exact I; try contradiction.
+    destruct op; try exact Hs; try contradiction; exact I.
+  Qed.
+
+  (* what Tree::optimized returns for a [src_ok_o] source satisfying [good] *)
+  Theorem optimized_o_full vb (a : arena R) i :
+    arena_wf a -> base_ok O a -> i < length a ->
+    OptimizePureO.src_ok_o vb a i -> FlattenSem.good O osem a i ->
+    let '((a1, r1), fl) := optimized_full O a i in
+    extends a a1 /\ arena_wf a1 /\ base_ok O a1 /\ r1 < length a1 /\
+    (forall r, val O osem a1 r1 r = val O osem a i r) /\
+    OptimizePure.hp true vb a1 r1 /\ bnd_of a1 r1 <= bnd_of a i /\ fl = false.
+  Proof.
+    intros Hwf Hb Hi Hs Hg.
+    pose proof (OptimizePureO.optimized_o_pure O vb a i Hwf Hb Hi Hs) as Hp.
+    pose proof (optimized_sem_good a i Hwf Hb Hi Hg) as Hv. unfold optimized in Hv.
+    destruct (optimized_full O a i) as [[a1 r1] fl]. cbn [fst] in Hv.
+    destruct Hp as (H1 & H2 & H3 & H4 & H5 & H6 & H7). destruct Hv as (_ & _ & _ & Hval).
+    repeat split; assumption.
+  Qed.
+
+  Theorem opt_ok_of_src_o vb (a : arena R) root :
+    arena_wf a -> base_ok O a -> root < length a ->
+    OptimizePureO.src_ok_o vb a root -> FlattenSem.good O osem a root ->
+    opt_ok O osem a root /\ snd (optimized_full O a root) = false.
+  Proof.
+    intros Hwf Hb Hi Hs Hg.
+    pose proof (optimized_o_full vb a root Hwf Hb Hi Hs Hg) as H.
+    unfold opt_ok, optimized. destruct (optimized_full O a root) as [[a1 r1] fl]. cbn [fst snd].
+    destruct H as (_ & H2 & H3 & H4 & H5 & H6 & _ & H8).
+    split; [|exact H8]. repeat split; try assumption. apply (hp_opure vb); exact H6.
+  Qed.
+
+  (* the coordinate trees of an optimised variable-free output depend on the point only *)
+  Lemma hp_xyz_only (a : arena R) : arena_wf a -> forall j, j < length a ->
+    OptimizePure.hp true false a j -> xyz_only O osem a j.
+  Proof.
+    intros Hwf j. induction j as [j IH] using lt_wf_ind. intros Hj Hp r r' Ex Ey Ez.
+    apply OptimizePure.hp_unfold in Hp. destruct Hp as [Hs Hk].
+    destruct (getn a j) as [c|op|op x|op x y|g|cx cy cz u|x y z t|v e t|] eqn:Hg;
+      cbn [OptimizePure.oshape OptimizePure.okids] in *; try contradiction.
+    - rewrite !(val_const O osem a j c) by assumption. reflexivity.
+    - rewrite !val_node by exact Hj. rewrite Hg.
+      destruct op; try contradiction; try discriminate Hs; cbn [nodeval]; auto.
+    - destruct (val_unary O osem a j op x r Hwf Hj Hg) as [Hx ->].
+      destruct (val_unary O osem a j op x r' Hwf Hj Hg) as [_ ->].
+      f_equal. apply IH; auto; [lia | apply Hk; left; reflexivity].
+    - destruct (val_binary O osem a j op x y r Hwf Hj Hg) as (Hx & Hy & ->).
+      destruct (val_binary O osem a j op x y r' Hwf Hj Hg) as (_ & _ & ->).
+      f_equal; apply IH; auto; try lia; apply Hk; simpl; auto.
+    - rewrite !(val_oracle O osem a j g) by assumption. rewrite Ex, Ey, Ez. reflexivity.
+    - destruct (val_oracleT O osem a j cx cy cz u r Hwf Hj Hg) as (Hx & Hy & Hz & Hu & ->).
+      destruct (val_oracleT O osem a j cx cy cz u r' Hwf Hj Hg) as (_ & _ & _ & _ & ->).
+      destruct Hs as [_ [k Hku]].
+      rewrite !(val_oracle O osem a u k) by (assumption || lia). unfold upd_xyz; cbn [ex ey ez].
+      rewrite (IH cx Hx ltac:(lia) (Hk cx ltac:(simpl; auto)) r r' Ex Ey Ez).
+      rewrite (IH cy Hy ltac:(lia) (Hk cy ltac:(simpl; auto)) r r' Ex Ey Ez).
+      rewrite (IH cz Hz ltac:(lia) (Hk cz ltac:(simpl; auto)) r r' Ex Ey Ez). reflexivity.
+  Qed.
+
+  (* a variable-free, apply-free source satisfies [good] for free *)
+  Lemma good_of_so_false (a : arena R) i : OptimizePureO.src_ok_o false a i -> FlattenSem.good O osem a i.
+  Proof.
+    intros Hs m v e t Hm Hn. exfalso.
+    assert (Hr : ReachShape.greach OptimizePureO.fkids a i m).
+    { clear Hn. induction Hm as [|n k Hn IH Hk]; [constructor|]. econstructor; [exact IH|].
+      destruct (getn a n); exact Hk. }
+    specialize (Hs m Hr). rewrite Hn in Hs. cbn in Hs. discriminate Hs.
+  Qed.
+
+  (* the whole tower, from syntactic conditions on the SOURCE only: variable-free sources
+     with oracles, transformed oracles and lazy remaps anywhere (nested to any depth);
+     no hypothesis on Tree::optimized, no out-of-fuel hypothesis *)
+  Theorem tower_ok_of_src_o : forall n (a : arena R) root,
+    arena_wf a -> base_ok O a -> root < length a ->
+    OptimizePureO.src_ok_o false a root -> bnd_of a root <= n ->
+    tower_ok O osem (2 * n + 1) a root.
+  Proof.
+    induction n as [|n IH]; intros a root Hwf Hb Hi Hs Hbn.
+    all: pose proof (good_of_so_false a root Hs) as Hg.
+    all: pose proof (optimized_o_full false a root Hwf Hb Hi Hs Hg) as H.
+    all: destruct (opt_ok_of_src_o false a root Hwf Hb Hi Hs Hg) as [Hopt _].
+    1: change (2 * 0 + 1) with 1.
+    2: replace (2 * S n + 1) with (S (S (S (2 * n)))) by lia.
+    all: rewrite tower_ok_S; (split; [exact Hopt|]).
+    all: unfold optimized; destruct (optimized_full O a root) as [[a1 r1] fl]; cbn [fst].
+    all: destruct H as (He & Hwf1 & Hb1 & Hr1 & Hval & Hp & Hb1n & _).
+    all: intros id Hr Ho.
+    all: pose proof (reach_greach_kids a1 r1 id Hr) as Hr'.
+    all: pose proof (OptimizePureO.kreach_bnd a1 r1 id Hwf1 Hr1 Hr') as Hbid.
+    all: pose proof (ReachShape.greach_le kids OptimizePure.kids_wf a1 r1 id Hwf1 Hr1 Hr') as Hle.
+    all: assert (Hidl : id < length a1) by lia.
+    all: pose proof (OptimizePureO.hp_kreach false a1 r1 id Hp Hr') as Hpid.
+    - (* level bound 0: no oracle node at all *)
+      exfalso. destruct (getn a1 id) as [c|op|op x|op x y|g|cx cy cz u|x y z t|v e t|] eqn:Hgn;
+        try discriminate Ho.
+      + rewrite (Bnd.bnd_oracle a1 id g Hwf1 Hidl Hgn) in Hbid. lia.
+      + rewrite (Bnd.bnd_oracleT a1 id cx cy cz u Hwf1 Hidl Hgn) in Hbid. lia.
+    - rewrite obj_ok_S.
+      pose proof (arena_wf_nth a1 id Hwf1 Hidl) as Hnw.
+      apply OptimizePure.hp_unfold in Hpid. destruct Hpid as [Hsh Hk].
+      destruct (getn a1 id) as [c|op|op x|op x y|g|cx cy cz u|x y z t|v e t|] eqn:Hgn;
+        try discriminate Ho; [exact I|].
+      cbn [OptimizePure.oshape OptimizePure.okids node_wf] in *.
+      destruct Hsh as [_ [k Hku]]. destruct Hnw as (Hx & Hy & Hz & Hu).
+      rewrite (Bnd.bnd_oracleT a1 id cx cy cz u Hwf1 Hidl Hgn) in Hbid.
+      assert (Hc : forall c, In c [cx; cy; cz] -> c < length a1 /\
+                   tower_ok O osem (S (2 * n)) a1 c /\ xyz_only O osem a1 c).
+      { intros c Hc. assert (Hcl : c < length a1) by (destruct Hc as [<-|[<-|[<-|[]]]]; lia).
+        assert (Hpc : OptimizePure.hp true false a1 c) by (apply Hk; simpl in *; tauto).
+        split; [exact Hcl|]. split; [|apply hp_xyz_only; assumption].
+        replace (S (2 * n)) with (2 * n + 1) by lia.
+        apply IH; auto; [apply OptimizePureO.hp_so; exact Hpc|].
+        destruct Hc as [<-|[<-|[<-|[]]]]; lia. }
+      destruct (Hc cx ltac:(simpl; auto)) as (_ & Tx & Cx).
+      destruct (Hc cy ltac:(simpl; auto)) as (_ & Ty & Cy).
+      destruct (Hc cz ltac:(simpl; auto)) as (_ & Tz & Cz).
+      split; [exact Tx|]. split; [exact Ty|]. split; [exact Tz|].
+      split; [exact Cx|]. split; [exact Cy|]. split; [exact Cz|].
+      rewrite Hku. split; [reflexivity|]. rewrite obj_ok_S, Hku. exact I.
+  Qed.
+
+  (* ArrayEvaluator on a SOURCE tree with oracles: no hypothesis about Tree::optimized *)
+  Corollary evaluator_correct_syntactic (a : arena R) root fuel vars x y z :
+    arena_wf a -> base_ok O a -> root < length a ->
+    OptimizePureO.src_ok_o false a root -> 2 * bnd_of a root + 1 <= fuel ->
+    evaluator O osem fuel a root vars x y z
+    = val O osem a root {| ex := x; ey := y; ez := z; ev := vars |}.
+  Proof.
+    intros Hwf Hb Hi Hs Hf.
+    apply (evaluator_correct O osem (2 * bnd_of a root + 1) fuel a root vars x y z); [|exact Hf].
+    apply tower_ok_of_src_o; auto.
+  Qed.
+
+  (* non-vacuity over the reals: an already transformed oracle (oracle 0 at (x + y, y, z))
+     remapped again, lazily, by (x * y, y, z) *)
+  Definition nested_R : arena R :=
+    init_arena O ++ [NOracle 0; NBinary OP_ADD idX idY; NOracleT 6 idY idZ 5;
+                     NBinary OP_MUL idX idY; NRemap 8 idY idZ 7].
+
+  Example nested_R_evaluator fuel vars x y z : 3 <= fuel ->
+    evaluator O osem fuel nested_R 9 vars x y z
+    = osem 0 (o_bin O OP_ADD (o_bin O OP_MUL x y) y) y z.
+  Proof.
+    intros Hf.
+    assert (Hb : bnd_of nested_R 9 = 1) by (vm_compute; reflexivity).
+    rewrite (evaluator_correct_syntactic nested_R 9 fuel vars x y z).
+    - reflexivity.
+    - unfold arena_wf, nested_R, init_arena; simpl. repeat split; try reflexivity; unfold idX, idY, idZ; lia.
+    - reflexivity.
+    - simpl; lia.
+    - apply (OptimizePureO.sob_sound false 10). vm_compute. reflexivity.
+    - rewrite Hb. lia.
   Qed.
 End OptOkR.
